@@ -1,5 +1,6 @@
 import SkyllhModel.Proto
 import SkyllhModel.Model.Coords
+import SkyllhModel.Model.CoordsR7
 import SkyllhModel.Generated.C19
 open Proto Coords
 
@@ -21,10 +22,18 @@ open Proto Coords
       reloccall <sRa> <sDec> <tRa> <tDec> <rRa> <rDec>  -> ra,dec,ra,dec,…
       psicall  <src> <evt> <pairs> <floor|->            -> psi list
       defpairs K n                                      -> k,e,k,e,…
+      psicalli <src> <evt> <signed pairs> <floor|->     -> psi list   (numpy wrap-around of negative indices)
+      normidx  n i                                      -> j | ERR:index
+      horcall  <azi> <zen> <mjd>                        -> <ra list> <dec list>   (zen is not broadcast against azi/mjd)
+      razicall <ra> <mjd>                               -> azi list
+      psi2call srcDec srcRa <psis> <ts>                 -> <dec list> <ra list> <draw lo> <draw hi> <draw size>
     Every per-element answer ends with one token `b:<tag>+<tag>…` naming the branches of the model taken.
 -/
 def pairsF : List Float → List (Float × Float)
   | a :: b :: rest => (a, b) :: pairsF rest
+  | _ => []
+def pairsI : List Int → List (Int × Int)
+  | a :: b :: rest => (a, b) :: pairsI rest
   | _ => []
 def pairsN : List Nat → List (Nat × Nat)
   | a :: b :: rest => (a, b) :: pairsN rest
@@ -123,6 +132,29 @@ def answer (line : String) : String :=
       match psiFieldCall (pairsF (pList pF ss)) (pairsF (pList pF es)) (pairsN (pList pN ps))
         (if fl == "-" then none else some (pF fl)) with
       | .ok r => fListD fF r
+      | .error e => fErr e
+  | ["psicalli", ss, es, ps, fl] =>
+      match psiFieldCallI (pairsF (pList pF ss)) (pairsF (pList pF es)) (pairsI (pList pI ps))
+        (if fl == "-" then none else some (pF fl)) with
+      | .ok r => fListD fF r
+      | .error e => fErr e
+  | ["normidx", n, i] =>
+      match normIdx (pN n) (pI i) with
+      | some j => toString j
+      | none => "ERR:index"
+  | ["horcall", a, z, t] =>
+      match horToEquCall len off (pList pF a) (pList pF z) (pList pF t) with
+      | .ok r => s!"{fListD fF r.1} {fListD fF r.2}"
+      | .error e => fErr e
+  | ["razicall", a, t] =>
+      match raToAziCall len off (pList pF a) (pList pF t) with
+      | .ok r => fListD fF r
+      | .error e => fErr e
+  | ["psi2call", sd, sr, ps, ts] =>
+      match psiToDecRaCall (pF sd) (pF sr) (pList pF ps) (pList pF ts) with
+      | .ok r =>
+          let q : Float × Float × Nat := psiDrawRequest (pList pF ps)
+          s!"{fListD fF r.1} {fListD fF r.2} {fF q.1} {fF q.2.1} {q.2.2}"
       | .error e => fErr e
   | ["defpairs", k, n] => fListD (fun p => s!"{p.1},{p.2}") (defaultPairs (pN k) (pN n))
   | ["psifield", ss, es, ps, fl] =>
